@@ -407,7 +407,7 @@ int main(int argc, char** argv)
 		for(int bounded = 0; bounded < 2; bounded++)
 		{	// Metropolis 1D: standard normal (truncated to [-1, 2] when bounded); heavy thinning makes the draws nearly independent
 			std::function<double(double)> pdf = [](double x) { return std::exp(-0.5 * x * x); };
-			unsigned n = quick ? 3000 : 20000;
+			unsigned n = quick ? 30000 : 150000;
 			auto r	   = Sample_Metropolis(G, pdf, 2.0, n, 30, 500, bounded ? std::vector<double>{-1.0, 2.0} : std::vector<double>{});
 			std::vector<double> u;
 			double lo = bounded ? Phi(-1.0) : 0.0, hi = bounded ? Phi(2.0) : 1.0;
@@ -417,8 +417,10 @@ int main(int argc, char** argv)
 		}
 		for(int bounded = 0; bounded < 2; bounded++)
 		{	// Metropolis 2D: independent normals with different widths
+			// (enough draws to see a stationary law that is depleted by a few per cent near the edges of the domain: a proposal that is
+			// redrawn until it falls inside, instead of being rejected, shifts the marginals by D = 0.02..0.04)
 			std::function<double(double, double)> pdf = [](double x, double y) { return std::exp(-0.5 * (x * x + y * y / 0.25)); };
-			unsigned n = quick ? 3000 : 20000;
+			unsigned n = quick ? 30000 : 150000;
 			auto r	   = Sample_Metropolis_2D(G, pdf, {1.5, 0.8}, n, 30, 500, bounded ? std::vector<double>{-1.0, 2.0, -0.5, 1.0} : std::vector<double>{});
 			std::vector<double> u1, u2;
 			double l1 = bounded ? Phi(-1.0) : 0, h1 = bounded ? Phi(2.0) : 1, l2 = bounded ? Phi(-1.0) : 0, h2 = bounded ? Phi(2.0) : 1;
